@@ -92,7 +92,14 @@ func newPkg(pkg *packages.Package, u *Universe) Package {
 		return fileLine{position.Filename, position.Line + deltaLine}
 	}
 
+	// trailing comment groups, which must not be indexed as leading comments of next line
+	trailingCommentGroups := map[*ast.CommentGroup]bool{}
+
 	collectCommentGroup := func(c *ast.CommentGroup, isTrailing bool, stmtPos token.Pos) {
+		if isTrailing && c != nil {
+			trailingCommentGroups[c] = true
+		}
+
 		fl := fileLineFor(stmtPos, 0)
 
 		if c != nil && c.Pos() == stmtPos {
@@ -177,7 +184,10 @@ func newPkg(pkg *packages.Package, u *Universe) Package {
 					}
 				}
 			case *ast.CommentGroup:
-				collectCommentGroup(x, false, x.Pos())
+				// parent node is always visited before its comment groups
+				if !trailingCommentGroups[x] {
+					collectCommentGroup(x, false, x.Pos())
+				}
 			case *ast.ValueSpec:
 				collectCommentGroup(x.Doc, false, x.Pos())
 				collectCommentGroup(x.Comment, true, x.Pos())
